@@ -118,19 +118,33 @@ class C01(core.PropBase):
             j = core.json_sx(case["doc"])
         except ValueError:
             return []
-        return [["accept_" + case["kind"], j]]
+        return [["accept_" + case["kind"], j], ["accept_" + case["kind"] + "_spec", j]]
+
+    @staticmethod
+    def _verdict(r):
+        if r[0] == "ok":
+            return "accept" if r[1] == "true" else "reject"
+        if r[0] == "raise" and r[1] == "RuntimeError":
+            return "skip"
+        return "model:" + str(r)
 
     def model_obs(self, case, replies):
+        """["verdict", v] where v is the verdict of the acceptance model on the schema read from the live
+        classes; when the spec oracle (same model on the frozen 2023-09 table) disagrees with it, the
+        schema has changed meaning and the oracle's verdict is what the property demands: the case is then
+        reported as ["verdict", oracle, "schema-changed: model-on-live-schema says <v>"]."""
         if case["kind"] == "charset":
             return ["charset", [r == "true" for r in replies]]
         if not replies:
             return ["skip", "not-json"]
-        r = replies[0]
-        if r[0] == "ok":
-            return ["verdict", "accept" if r[1] == "true" else "reject"]
-        if r[0] == "raise" and r[1] == "RuntimeError":
+        g, sp = self._verdict(replies[0]), self._verdict(replies[1])
+        if g == "skip" or sp == "skip":
             return ["skip", "outside-model-domain"]
-        return ["model", r]
+        if g.startswith("model:") or sp.startswith("model:"):
+            return ["model", g, sp]
+        if g != sp:
+            return ["verdict", sp, "schema-changed: the model on the live schema says " + g]
+        return ["verdict", g]
 
     def run_chunk(self, chunk):
         res = super().run_chunk(chunk)
@@ -142,6 +156,8 @@ class C01(core.PropBase):
                 res["stats"]["skipped:" + mo[1]] = res["stats"].get("skipped:" + mo[1], 0) + 1
                 continue
             if mo[0] == "verdict" and io[0] == "verdict" and not io[1].startswith("raise"):
+                if io[1].split("+")[0] == mo[1] and "input-mutated" not in io[1]:
+                    continue       # implementation agrees with what the property demands
                 if self.side == "sound" and not (io[1].startswith("accept") and mo[1] == "reject"):
                     if "input-mutated" not in io[1]:
                         continue
@@ -168,7 +184,7 @@ class C01(core.PropBase):
         drv = core.Driver(self.component)
         replies, _ = drv.ask(self.requests(case), self.prelude())
         i, m = self.impl(case), self.model_obs(case, replies)
-        return m[0] == "verdict" and i != m
+        return m[0] == "verdict" and i[0] == "verdict" and i[1].split("+")[0] != m[1]
 
     def shrink_candidates(self, case):
         if case["kind"] == "charset":
